@@ -821,4 +821,15 @@ def guarded_split(facts, body_path, sp):
         for (p, oo, q) in ((a, o, b), (b, flip[o], a)):
             if is_len_of_x(p) and expr_eq(facts, q, n) and oo in ('Ge', 'Gt', 'Eq'):
                 return 'guarded: a comparison that holds at the call gives len >= the split position'
+    # the split position is a count of elements of x itself: `x.iter().<adaptors>.count()` where every adaptor yields at most as
+    # many elements as its source (a subsequence or an element-wise image of it), so the count cannot exceed x.len()
+    SHRINKING = ('take_while', 'filter', 'skip_while', 'take', 'skip', 'map', 'filter_map', 'map_while', 'step_by', 'inspect', 'enumerate',
+                 'copied', 'cloned', 'peekable', 'fuse', 'rev')
+    e = _hirq.resolve_expr(B, n)
+    if e['k'] == 'MethodCall' and e['name'] == 'count' and not e['args'] and (e.get('callee') or '') == 'core::iter::traits::iterator::Iterator::count':
+        e = _hirq.peel_refs(e['recv'])
+        while e['k'] == 'MethodCall' and e['name'] in SHRINKING and (e.get('callee') or '').startswith('core::iter::traits::iterator::Iterator::'):
+            e = _hirq.peel_refs(e['recv'])
+        if e['k'] == 'MethodCall' and e['name'] in ('iter', 'into_iter') and not e['args'] and expr_eq(facts, e['recv'], x):
+            return 'the split position counts elements of the split slice itself (iter() through adaptors that never lengthen the sequence): it is <= len'
     return None
